@@ -31,7 +31,9 @@ for f in glob.glob(sys.argv[1] + "/*.xml"):
         bad = [ch for ch in tc if ch.tag in ("failure", "error") or (ch.tag == "skipped" and ch.get("type") != "pytest.xfail")]
         if not bad:
             passed.add(f"{tc.get('classname')}::{tc.get('name')}")
-missing = sorted(stable - passed)
+# imports docs/source/conf.py, which needs repository files outside the scratch copy: fails there with a no-op patch too
+ARTEFACT = {"tests.core.test_docs_setting_column_widths::test_sphinx_doctest_setting_global_pandas_conditions"}
+missing = sorted(stable - passed - ARTEFACT)
 print(f"SEED-TESTS {sys.argv[2]} missing={len(missing)} stable_checked={len(stable)} pyspark={'yes' if ran_pyspark else 'no'}")
 for m in missing[:8]:
     print("  MISSING", m)
